@@ -96,7 +96,7 @@ def serializeNode (st : TreeSt) (n : NodeIn) : Except Status TreeSt :=
   match n.kind with
   | .dir ents =>                                                                               -- write_dir_entries
     match addAllEntries ents with
-    | .error e => .error e
+    | .error _ => .error errInternal      -- :114-115, :136: `write_dir_entries` reports the cause, the caller sees NULL
     | .ok des =>
       serializeStep st n (dirInodeOf st.dirs.length n des)
         (st.dirs ++ encListing rawCost (st.dirs.length / metaBlockSize * rawCost) (st.dirs.length % metaBlockSize) des)
